@@ -2691,6 +2691,7 @@ else {
 
 	/** Read in the table **/
    ADFI_read_data_chunk_table( file_index, &node.data_chunks,
+   				node.number_of_data_chunks,
    				data_chunk_table, error_return ) ;
    CHECK_ADF_ABORT( *error_return ) ;
 
@@ -2833,6 +2834,7 @@ else {
 
 	/** Read in the table **/
    ADFI_read_data_chunk_table( file_index, &node.data_chunks,
+   				node.number_of_data_chunks,
    				data_chunk_table, error_return ) ;
    CHECK_ADF_ABORT( *error_return ) ;
 
@@ -3050,6 +3052,7 @@ else if( node.number_of_data_chunks > 1 ) {	/** Multiple data chunks **/
 
 	/** Read in the table **/
    ADFI_read_data_chunk_table( file_index, &node.data_chunks,
+                node.number_of_data_chunks,
                 data_chunk_table, error_return ) ;
    CHECK_ADF_ABORT( *error_return ) ;
 
@@ -3473,6 +3476,7 @@ else { /** Multiple data chunks **/
 
 	/** Read in the table **/
 	 ADFI_read_data_chunk_table( file_index, &node.data_chunks,
+                node.number_of_data_chunks,
                 data_chunk_table, error_return ) ;
          CHECK_ADF_ABORT( *error_return ) ;
 
@@ -3781,6 +3785,7 @@ else { /** Multiple data chunks **/
 
     /** Read in the table **/
 	 ADFI_read_data_chunk_table( file_index, &node.data_chunks,
+                node.number_of_data_chunks,
                 data_chunk_table, error_return ) ;
          CHECK_ADF_ABORT( *error_return ) ;
 
@@ -4144,6 +4149,7 @@ else { /** Multiple data chunks, check to see if we need to add one mode **/
 
 	/** Read in the table **/
    ADFI_read_data_chunk_table( file_index, &node.data_chunks,
+                node.number_of_data_chunks,
                 data_chunk_table, error_return ) ;
    CHECK_ADF_ABORT( *error_return ) ;
 
